@@ -951,6 +951,73 @@ def run_history(ctx, rng, length, faults):
         shutil.rmtree(root, ignore_errors=True)
 
 
+def scripted_defaults(ctx, rng):
+    """Deterministic histories: an explicitly chosen default (certificate / key / identity) that is neither the oldest nor the
+    newest member of its scope survives the deletion of OTHER members, additions, and close / reopen."""
+    for rep in range(ctx.n(2, 30)):
+        root = tempfile.mkdtemp(prefix='nvf-kc-')
+        try:
+            S = Store(root)
+            M = Model()
+            A, B, Cn = (T([C(b'id'), C(x)]) for x in (b'a', b'b', b'c'))
+            step = [0]
+
+            def do(op):
+                step[0] += 1
+                w = {'scripted': True, 'step': step[0], 'op': [op[0]]}
+                apply_op(S, M, op, rng, ctx)
+                check_invariants(ctx, S, M, w, f'{op[0]} (scripted history, step {step[0]})')
+                if op[0] != 'reopen':
+                    check_signer(ctx, S, M, rng, w)
+            for idn in (A, B, Cn):
+                do(('touch', idn))
+            ka = next(iter(M.ids[A]['keys']))
+            for _ in range(3):
+                do(('import_cert', A, ka, (B, next(iter(M.ids[B]['keys'])))))
+            certs = list(M.ids[A]['keys'][ka]['certs'])          # oldest (self-signed) first
+            do(('set_default_cert', A, ka, certs[2]))
+            # a certificate name that the store already holds under key A, imported again under ANOTHER key: refused (names are
+            # unique in the store); whatever the call does, nothing may disappear from A or change hands
+            kb = next(iter(M.ids[B]['keys']))
+            for cn in (certs[2], certs[1]):
+                try:
+                    S.kc.import_cert(list(kb), list(cn), M.ids[A]['keys'][ka]['certs'][cn])
+                    ctx.event('observation:foreign-certificate-name-import-accepted')
+                except Exception:   # noqa
+                    ctx.event('foreign-certificate-name-import-refused')
+                    try:
+                        S.kc.conn.rollback()
+                    except Exception:   # noqa
+                        pass
+                check_invariants(ctx, S, M, {'scripted': True, 'op': ['import_cert of a name held by another key']}, 'importing under key B a certificate name stored under key A')
+            do(('del_cert', A, ka, certs[1], 'kc'))
+            do(('reopen',))
+            do(('del_cert', A, ka, certs[3], 'obj'))
+            do(('import_cert', A, ka, (B, next(iter(M.ids[B]['keys'])))))
+            do(('del_cert', A, ka, certs[0], 'kc'))
+            for _ in range(3):
+                do(('new_key', A, 'ec', None, 'kc'))
+            keys = list(M.ids[A]['keys'])
+            do(('set_default_key', A, keys[2]))
+            do(('del_key', A, keys[1], 'kc'))
+            do(('reopen',))
+            do(('del_key', A, keys[3], 'obj'))
+            do(('new_key', A, 'ec', None, 'kc'))
+            do(('del_key', A, keys[0], 'kc'))
+            do(('touch', T([C(b'id'), C(b'd')])))
+            do(('set_default_identity', B))
+            do(('del_identity', Cn))
+            do(('reopen',))
+            do(('del_identity', A))
+            ctx.event('scripted-defaults-history')
+            ctx.case(('scripted-defaults', rep), nontrivial=True)
+            S.close()
+        except Exception as e:   # noqa
+            ctx.report(f'scripted-history-raises:{type(e).__name__}@{raising_site(e)[0]}', f'{e!r}', {'scripted': True})
+        finally:
+            shutil.rmtree(root, ignore_errors=True)
+
+
 def several_stores(ctx, rng):
     """Several stores (each with its own directory) open in one process, holding identities / keys of the SAME names (explicit
     key ids): every store signs with its own private keys, also after the other store created, replaced or deleted its key of
@@ -1015,13 +1082,14 @@ def run(ctx):
     ctx.rule = RULE
     rng = ctx.rng
     several_stores(ctx, rng)
+    scripted_defaults(ctx, rng)
     if ctx.shard == 0:
         fault_sweep(ctx, rng)
     n = ctx.n(80, 20000)
     for i in range(n):
         run_history(ctx, rng, rng.randint(5, 40), faults=(i % 3 == 2))
     need = ['invariant-scan', 'signer-judged', 'operation-repeated', 'crash-reopen', 'op-del_key', 'op-del_identity', 'op-reopen',
-            'op-import_cert', 'signer-deleted-key-refused', 'new-key-with-empty-key-id', 'new-key-on-a-larger-curve', 'set-default-with-nonmember-name', 'signer-probe-around-default-change', 'signer-requested-with-several-selectors', 'several-stores-history', 'foreign-store-signer-refused']
+            'op-import_cert', 'signer-deleted-key-refused', 'new-key-with-empty-key-id', 'new-key-on-a-larger-curve', 'set-default-with-nonmember-name', 'signer-probe-around-default-change', 'signer-requested-with-several-selectors', 'scripted-defaults-history', 'several-stores-history', 'foreign-store-signer-refused']
     if ctx.shard == 0:
         need.append('fault-sweep-point')
     for k in need:
